@@ -383,6 +383,11 @@ class IntegralGenerator:
             for blockdata in contributions
         ]
 
+        if self.ir.part == TensorPart.diagonal:
+            # Only blocks on the diagonal of the element tensor contribute to its
+            # diagonal (e.g. not the '+'/'-' coupling blocks of interior facet integrals)
+            blocks = [(bm, bd) for bm, bd in blocks if len(bm) != 2 or bm[0] == bm[1]]
+
         block_groups = collections.defaultdict(list)
 
         # Group loops by blockmap, in Vector elements each component has
